@@ -113,6 +113,99 @@ fn slice_case(ctx: &mut Ctx, input: &Value) {
     }
 }
 
+//------------ Big data blocks, short-reading readers -------------------------
+
+/// A data block of `n` bytes without zero octets (a zero-filled gap cannot hide).
+fn big_blob(n: usize, salt: u8) -> Vec<u8> {
+    (0..n).map(|i| 1 + ((i * 31 + salt as usize) % 251) as u8).collect()
+}
+
+/// `{"big": "object"|"manifest", "size": n}`: a record with data blocks of `n` bytes, written
+/// with the real writer; read back from a slice, through short-reading readers (1, 7, 4096
+/// bytes per `read`) and — as part of a stored-point file — through the store's own
+/// `BufReader<File>` (`open`/`update`/iterate, `load_quietly`/iterate).
+fn big_case(ctx: &mut Ctx, input: &Value) {
+    let kind = input["big"].as_str().unwrap_or("");
+    let n = input["size"].as_u64().unwrap_or(0) as usize;
+    if !(kind == "object" || kind == "manifest") || n > 4_000_000 { ctx.count("skipped:unparsable-input"); return }
+    let uri = |s: &str| uri::Rsync::from_slice(s.as_bytes()).expect("uri");
+    let manifest = StoredManifest {
+        not_after: parse_time("1800000000.0").unwrap(),
+        manifest_number: rpki::repository::x509::Serial::default(),
+        this_update: parse_time("1700000000.0").unwrap(),
+        ca_repository: uri("rsync://big.example/m/"),
+        manifest: bytes::Bytes::from(if kind == "manifest" { big_blob(n, 3) } else { big_blob(300, 3) }),
+        crl_uri: uri("rsync://big.example/m/big.crl"),
+        crl: bytes::Bytes::from(if kind == "manifest" { big_blob(n + 1, 5) } else { big_blob(200, 5) }),
+    };
+    let objects = vec![
+        StoredObject::new(uri("rsync://big.example/m/a.roa"), bytes::Bytes::from(big_blob(if kind == "object" { n } else { 50 }, 7)), None),
+        StoredObject::new(uri("rsync://big.example/m/b.roa"), bytes::Bytes::from(big_blob(77, 9)), None),
+    ];
+    let written = if kind == "object" { Rec::Object(objects[0].clone()) } else { Rec::Manifest(manifest.clone()) };
+    let mut problems: Vec<String> = Vec::new();
+    let res = rvcore::catch(std::panic::AssertUnwindSafe(|| {
+        let mut problems: Vec<String> = Vec::new();
+        let enc = written.encode()?;
+        let trail = [0xa5u8, 0x5a, 0x01];
+        let mut data = enc.clone();
+        data.extend_from_slice(&trail);
+        let mut check = |how: String, got: (Option<Rec>, Outcome)| {
+            match got {
+                (Some(rec), Outcome::Ok(_, rest)) => {
+                    if !rec.same(&written) { problems.push(format!("{how}: value differs")) }
+                    if rest != trail { problems.push(format!("{how}: {} bytes left instead of {}", rest.len(), trail.len())) }
+                }
+                (_, o) => problems.push(format!("{how}: {}", o.class())),
+            }
+        };
+        check("slice".into(), decode(kind, &data));
+        for chunk in [1usize, 7, 4096] {
+            check(format!("short-reads-{chunk}"), crate::records::decode_short(kind, &data, chunk));
+        }
+        // the real file path
+        let dir = tempfile::tempdir().map_err(|e| e.to_string())?;
+        let path = dir.path().join("point.bin");
+        rvcore::clock::set(1_700_000_000, 0);
+        let muri = uri("rsync://big.example/m/big.mft");
+        let mut point = StoredPoint::verif_open(path.clone(), &muri, None).map_err(|_| "open failed".to_string())?;
+        let mut iter = objects.iter();
+        point.verif_update_in(dir.path(), manifest.clone(), || Ok(iter.next().cloned()))
+            .map_err(|_| "update failed".to_string())?;
+        let via_handle: Vec<_> = point.by_ref().collect();
+        drop(point);
+        let mut cmp = |how: &str, m: Option<&StoredManifest>, got: Vec<Result<StoredObject, routinator::utils::binio::ParseError>>| {
+            if m != Some(&manifest) { problems.push(format!("{how}: manifest differs")) }
+            if got.len() != objects.len() { problems.push(format!("{how}: {} objects instead of {}", got.len(), objects.len())) }
+            for (a, b) in got.iter().zip(objects.iter()) {
+                match a { Ok(a) if a == b => {}, Ok(_) => problems.push(format!("{how}: object differs")),
+                          Err(e) => problems.push(format!("{how}: object unreadable: {e}")) }
+            }
+        };
+        cmp("file-same-handle", Some(&manifest), via_handle);
+        let mut opened = StoredPoint::verif_open(path.clone(), &muri, None).map_err(|_| "reopen failed".to_string())?;
+        let m = opened.manifest().cloned();
+        let got: Vec<_> = opened.by_ref().collect();
+        cmp("file-open", m.as_ref(), got);
+        let mut loaded = StoredPoint::load_quietly(path.clone()).ok_or_else(|| "load_quietly failed".to_string())?;
+        let m = loaded.manifest().cloned();
+        let got: Vec<_> = loaded.by_ref().collect();
+        cmp("file-load-quietly", m.as_ref(), got);
+        Ok::<_, String>(problems)
+    }));
+    match res {
+        Ok(Ok(p)) => problems.extend(p),
+        Ok(Err(e)) => problems.push(e),
+        Err(panic) => problems.push(format!("panic: {panic}")),
+    }
+    ctx.case_oracle_only(input, &format!("{} problems", problems.len()));
+    ctx.count("kind:big-block");
+    ctx.nontrivial(format!("big:{kind}:{}", if n > 65536 { ">64K" } else { "<=64K" }));
+    if !problems.is_empty() {
+        ctx.oracle_fail(&format!("big-block-differs-{kind}"), &problems.join("; "), input, json!(problems));
+    }
+}
+
 //------------ File level ----------------------------------------------------
 
 fn objects_from(input: &Value) -> Option<Vec<Fields>> {
@@ -352,7 +445,7 @@ pub fn run_c28(ctx: &mut Ctx) {
     ctx.rule = "values of each persisted record type (StoredPointHeader, StoredManifest, StoredObject, StoredStatus, \
         RepositoryState) through the real write/read with random trailing bytes; boundary integers, times at \
         chrono's limits and with sub-second parts, URIs with mixed-case schemes / long segments / trailing slash, \
-        byte strings of length 0,1,255,256,257,4095,4096 (thorough: also 65535,65536), maps of 0..120 (thorough: 1500) entries and of 1023,1024,1025,1026,2000,2047..2049,5000,65535..65537 entries; every optional \
+        byte strings of length 0,1,255,256,257,4095,4096 (thorough: also 65535,65536), data blocks of 65535, 65536, 65537, 100000, 200003 bytes read from a slice, through short-reading readers (1/7/4096 bytes per read) and through the store's BufReader<File>; maps of 0..120 (thorough: 1500) entries and of 1023,1024,1025,1026,2000,2047..2049,5000,65535..65537 entries; every optional \
         field cycled None/Some; plus whole stored-point files (open/update/load_quietly/iterate), status.bin \
         (Run::done/Store::status), RRDP state in an archive (publish/update/load_state), and the URI validators. \
         non-trivial = (record kind, pattern of absent/empty/present fields, trailing length class)".into();
@@ -368,6 +461,12 @@ pub fn run_c28(ctx: &mut Ctx) {
                     let f = gen::record(&mut rng, kind, i, quick);
                     let trail = gen::trail(&mut rng);
                     res.push(json!({"rec": kind, "fields": f.show(), "trail": hex(&trail)}));
+                }
+            }
+            // data blocks around 64 KiB and beyond, through short-reading readers and real files
+            for kind in ["object", "manifest"] {
+                for size in [65_535u64, 65_536, 65_537, 100_000, 200_003] {
+                    res.push(json!({"big": kind, "size": size}));
                 }
             }
             // maps around every size the map codec treats specially
@@ -406,6 +505,7 @@ pub fn run_c28(ctx: &mut Ctx) {
     };
     for input in inputs {
         if input.get("uri").is_some() { uri_case(ctx, &input) }
+        else if input.get("big").is_some() { big_case(ctx, &input) }
         else {
             match input["file"].as_str() {
                 Some("point") => point_file_case(ctx, &input),
